@@ -223,6 +223,12 @@ M = {
  "C15-m3-no-handshake-timer": ("C15", "PyOpenSSL handshake timer removed (the original defect)", [(TP,
     "            self._handshake_timeout_handle = loop.call_later(\n                HANDSHAKE_TIMEOUT, self._handle_handshake_timeout\n            )",
     "            self._handshake_timeout_handle = None", 1)]),
+ "C15-m4-failed-handshake-left-open": ("C15", "a failed handshake only disarms the timer ('peer will go away')", [(TP,
+    '            self._close_with_error(f"Handshake failed: {e}")',
+    '            self._cancel_handshake_timeout()\n            logger.warning("tls_handshake_failed", error=str(e))', 1)]),
+ "C15-m5-tls-error-swallowed": ("C15", "TLS error in application data swallowed after disarming the request timer", [(TP,
+    '            self._close_with_error(f"TLS error: {e}")',
+    '            if self.inner_protocol is not None and getattr(self.inner_protocol, "timeout_handle", None):\n                self.inner_protocol.timeout_handle.cancel()\n                self.inner_protocol.timeout_handle = None', 1)]),
  # ---- C16 ---------------------------------------------------------------
  "C16-m1-follow-any-scheme": ("C16", "scheme filter removed", [(CS,
     '            if not redirect_url.startswith("gemini://"):\n                return response',
